@@ -125,8 +125,9 @@ gen_solid (gen_t *g, int slot)
 void
 gen_gradient (gen_t *g, int slot)
 {
-    int64_t a[48];
-    int n = prefix (g, a), kind = MOP_LINEAR + (int)rng_n (R, 3), ns = (int)rng_range (R, 1, 5), i;
+    int64_t a[SIM_MAX_ARGS];
+    /* now and then a long stop list (colour maps): code that treats those differently */
+    int n = prefix (g, a), kind = MOP_LINEAR + (int)rng_n (R, 3), ns = rng_chance (R, 1, 6) ? (int)rng_range (R, 7, 16) : (int)rng_range (R, 1, 5), i;
     int64_t pos = 0;
     a[n++] = slot;
     if (kind == MOP_LINEAR) { for (i = 0; i < 4; i++) a[n++] = rng_range (R, -40, 140) * 65536 + (rng_chance (R, 1, 2) ? 0 : rng_range (R, 0, 65535)); }
